@@ -314,7 +314,8 @@ def runtime_replacement_is_instance_local(ctx):
     if not dts:
         raise AnchorMissing('datatype replacement in register_input not found')
     for t, v, s in dts:
-        ok = src(t.value).startswith('self.parameters[')
+        base = [t.value] + (origins(t.value, f.node) if isinstance(t.value, ast.Name) else [])
+        ok = any(src(b).startswith('self.parameters[') for b in base)
         ctx.check(ok, f'{f.qualname}:store {src(t)}', s, 'the datatype of the instance copy of the parameter is replaced',
                   f'`{src(t)}` is not the instance parameter: the enum growth changes the class (all instances, later instances)', f)
         fresh = isinstance(v, ast.Call) and dotted(v.func) == 'EnumType'
